@@ -482,6 +482,283 @@ def u_apply_safety_walk():
                 abstractions=["node names are integers compared by ==", "subset constraints are opaque list elements", "statistics counters are plain integers"])
 
 
+def u_flow_safe_paths():
+    """safetyflowdecomp.compute_inexact_flow_decomp_safe_paths: the two-pointer algorithm over one decomposition path.
+    With  leak(j) = (sum of the upper bounds leaving path[j]) - upper(path[j], path[j+1])  and
+          excess(L, R) = lower(path[L], path[L+1]) - sum of leak(j) for L < j < R                (0 for L = R)
+    ensures (property clauses): the running value `inexact_excess` IS excess(L, R) for the current window; every reported path is a window path[L..R] with
+        L < R of the given decomposition path whose excess is POSITIVE (the safety criterion of the cited papers: A4f, assumed); the edge lists returned
+        are the consecutive pairs of the reported windows; the two `assert`s of the code hold; ValueError exactly for a path edge with negative lower bound,
+        lower > upper, or upper = 0.
+    ensures (auxiliary): a reported window cannot be extended to the right (its excess would drop to <= 0, or the path ends)."""
+    st = {}
+    PN = z3.Function("path_node", INT, INT)
+    LB, UB = z3.Function("lower_bound", INT, INT, z3.RealSort()), z3.Function("upper_bound", INT, INT, z3.RealSort())
+    OUTSUM = z3.Function("sum_of_upper_bounds_leaving", INT, z3.RealSort())
+    S = z3.Function("leak_prefix_sum", INT, z3.RealSort())
+    REAL_ = z3.RealSort()
+
+    def lbv(j): return LB(PN(j), PN(j + 1))
+    def ubv(j): return UB(PN(j), PN(j + 1))
+    def leak(j): return OUTSUM(PN(j)) - ubv(j)
+    def exc(L, R): return z3.If(L == R, z3.RealVal(0), lbv(L) - (S(R) - S(L + 1)))
+
+    class Attr:
+        def __init__(self, u, v): self.u, self.v = lift(u), lift(v)
+        def __contains__(self, a): return True                         # requires: both attributes are present on the path edges
+        def __getitem__(self, a): return Sym((LB if a == "lo" else UB)(self.u, self.v))
+
+    class EdgeView:
+        def __getitem__(self, key): return Attr(key[0], key[1])
+
+    class OutEdges(SymSeq):
+        pass
+
+    class GS:
+        edges = EdgeView()
+        @staticmethod
+        def out_edges(x):
+            x = lift(x)
+            c = core.ctx()
+            n = c.fresh_const("out_degree", INT)
+            c.assume(n >= 0)
+            hd = z3.Function(c.name("out_head"), INT, INT)
+            s_ = OutEdges(n, lambda q: (Sym(x), Sym(hd(lift(q)))), ESH, "out_edges")
+            s_.outnode = x
+            return s_
+
+    def sum__(it):
+        from pyvc.heap import LazyMap
+        if isinstance(it, LazyMap) and isinstance(it.seq, OutEdges) and it.flt is None:
+            c = core.ctx()
+            q = c.fresh_const("arbitrary_out_edge", INT)
+            el = it.seq._at(q)
+            if c._valid(lift(it.fn(el)) == UB(lift(el[0]), lift(el[1]))):      # the summand is the upper bound of the out-edge
+                return Sym(OUTSUM(it.seq.outnode))
+            raise Unsupported("sum over the out-edges of something else than their upper bounds")
+        from pyvc.rt import BUILTINS
+        return BUILTINS["sum"](it)
+
+    class Deque:
+        """safe_path: always a window path[lo..hi] of the current path (checked at every append)"""
+        def __init__(self): self.lo, self.hi = None, None
+        def append(self, x):
+            c = core.ctx()
+            if self.lo is None:
+                c.prove("row:the-window-starts-at-the-first-node-of-the-path", lift(x) == PN(0), prop=P, kind="xpost")
+                self.lo = self.hi = z3.IntVal(0)
+                return
+            c.prove("row:the-node-appended-to-the-window-is-the-next-node-of-the-path", lift(x) == PN(self.hi + 1), prop=P, kind="xpost")
+            self.hi = self.hi + 1
+        def popleft(self):
+            self.lo = self.lo + 1
+        def copy(self):
+            lo, hi = self.lo, self.hi
+            w = SymSeq(hi - lo + 1, lambda q: Sym(PN(lo + lift(q))), SInt, "window")
+            w.lo, w.hi = lo, hi
+            return w
+        def length(self): return Sym(self.hi - self.lo + 1)
+
+    def len__(x):
+        if isinstance(x, Deque):
+            return x.length()
+        from pyvc.rt import BUILTINS
+        return BUILTINS["len"](x)
+
+    class Reported(list):
+        def append(self, w):
+            c = core.ctx()
+            L, R = st["L"](), st["R"]()
+            c.prove("row:a-reported-path-is-the-current-window-path[L..R]-with-L<R", z3.And(w.lo == L, w.hi == R, L < R, L >= 0, R <= st["n"] - 1), prop=P, kind="xpost")
+            c.prove("row:a-reported-path-has-positive-excess-flow", exc(L, R) > 0, prop=P, kind="xpost")
+            c.prove("row(auxiliary):a-reported-path-cannot-be-extended-to-the-right", z3.Or(R + 1 >= st["n"], exc(L, R) - leak(R) <= 0), prop=None, kind="xpost")
+            list.append(self, w)
+
+    def zip__(a, b):
+        if not isinstance(a, SymSeq):
+            return zip(a, b)
+        n = z3.If(a.n <= b.n, a.n, b.n)
+        return SymSeq(n, lambda q: (a._at(q), b._at(q)), ESH, "zip")
+
+    # ---- concrete instances: the same extracted body, natively (real networkx graph, real deque), on small exact flows; compared with the windows of positive
+    #      excess found by brute force (maximal ones, one per left end unless it is a suffix of the previous one)
+    FLOWS = [
+        ([("s", "a", 5), ("a", "b", 3), ("a", "c", 2), ("b", "t", 3), ("c", "t", 2)], [["s", "a", "b", "t"], ["s", "a", "c", "t"]]),
+        ([("s", "a", 4), ("a", "b", 4), ("b", "c", 1), ("b", "d", 3), ("c", "t", 1), ("d", "t", 3)], [["s", "a", "b", "d", "t"], ["s", "a", "b", "c", "t"]]),
+        ([("s", "a", 6), ("a", "b", 2), ("a", "c", 4), ("b", "d", 2), ("c", "d", 4), ("d", "e", 5), ("d", "f", 1), ("e", "t", 5), ("f", "t", 1)],
+         [["s", "a", "c", "d", "e", "t"], ["s", "a", "b", "d", "e", "t"], ["s", "a", "b", "d", "f", "t"]]),
+        ([("s", "t", 7)], [["s", "t"]]),
+        ([("s", "a", 2.5), ("a", "t", 1.5), ("a", "b", 1.0), ("b", "t", 1.0)], [["s", "a", "t"], ["s", "a", "b", "t"]]),
+    ]
+
+    def instances():
+        out = []
+        for E, paths in FLOWS:
+            def hc(c, f, E=E, paths=paths):
+                import networkx
+                g = networkx.DiGraph()
+                for a, b, w in E:
+                    g.add_edge(a, b, lo=w, hi=w)
+                st.clear()
+                st["concrete"] = True
+                rt_ = f.__globals__["__pv"]
+                rt_.native_whiles, rt_._ticks, rt_.native_budget = True, 0, 5000
+                try:
+                    got = f(g, "lo", "hi", [list(p) for p in paths], False)
+                finally:
+                    st["concrete"] = False
+                flow = {(a, b): w for a, b, w in E}
+                outsum = {v: sum(w for (a, b), w in flow.items() if a == v) for v in g}
+                want = []
+                for p in paths:
+                    prevR = 0
+                    for L in range(len(p) - 1):
+                        ex, R = flow[(p[L], p[L + 1])], L + 1
+                        while R + 1 < len(p) and ex - (outsum[p[R]] - flow[(p[R], p[R + 1])]) > 0:
+                            ex -= outsum[p[R]] - flow[(p[R], p[R + 1])]
+                            R += 1
+                        if R > prevR:
+                            want.append([(p[i], p[i + 1]) for i in range(L, R)])
+                        prevR = R
+                norm = lambda ls: sorted(tuple(tuple(e) for e in x) for x in ls)
+                c.prove("instance:the-reported-paths-are-exactly-the-maximal-windows-of-positive-excess-of-the-decomposition-paths", z3.BoolVal(norm(got) == norm(want)), prop=P,
+                        info=dict(got=str(norm(got))[:300], want=str(norm(want))[:300]))
+            out.append(("exact flow %s, decomposition %s" % (E, paths), hc))
+        return out
+
+    def edge_ok(j): return z3.And(lbv(j) >= 0, lbv(j) <= ubv(j), ubv(j) != 0)
+
+    def inv_validate(ns, seq, done):
+        j = z3.Int("vj")
+        return {"path-edges-checked-so-far-have-0<=lower<=upper-and-upper!=0": z3.ForAll([j], z3.Implies(z3.And(j >= 0, j < lift(done)), edge_ok(j)))}
+
+    def window(ns):
+        L, R, e, sp = lift(ns["L"]), lift(ns["R"]), lift(ns["inexact_excess"]), ns["safe_path"]
+        e = z3.ToReal(e) if e.sort() == INT else e
+        pn = ns["path_not_suffix_of_previous"]
+        pn = lift(pn) if isinstance(pn, Sym) else z3.BoolVal(bool(pn))
+        return L, R, e, sp, pn
+
+    def inv_outer(ns, seq, done):
+        L, R, e, sp, pn = window(ns)
+        st["L"], st["R"] = (lambda: lift(ns["L"])), (lambda: lift(ns["R"]))
+        return {"window:0<=L<=R<n,-safe_path=path[L..R]": z3.And(L >= 0, L <= R, R < st["n"], sp.lo == L, sp.hi == R),
+                "inexact_excess=excess(L,R)": e == exc(L, R),
+                "a-window-with-an-edge-that-is-about-to-be-reported-has-positive-excess": z3.Implies(z3.And(pn, L < R), exc(L, R) > 0)}
+
+    def inv_inner(ns, seq, done):
+        cl = inv_outer(ns, seq, done)
+        L, R, e, sp, pn = window(ns)
+        cl["the-window-has-at-least-one-edge-while-it-is-extended"] = L < R
+        cl["a-window-that-will-be-reported-has-positive-excess"] = z3.Implies(pn, exc(L, R) > 0)
+        return cl
+
+    def inv_edges(ns, seq, done):
+        spe, sp = ns["safe_path_edges"], ns["safe_path"]
+        j = z3.Int("cj")
+        if not isinstance(spe, SymSeq):
+            return {"no-edge-yet": lift(done) == 0}
+        return {"edges-so-far=consecutive-pairs-of-the-reported-window": z3.And(spe.n == lift(done), z3.ForAll([j], z3.Implies(z3.And(j >= 0, j < lift(done)), z3.And(
+            lift(spe._at(j)[0]) == lift(sp._at(j)), lift(spe._at(j)[1]) == lift(sp._at(j + 1))))))}
+
+    def h(c, f):
+        n = c.fresh_const("path_length", INT)
+        c.assume(n >= 0)
+        st.clear()
+        st["n"] = n
+        q, q2 = z3.Ints("hq hq2")
+        c.assume(S(0) == 0)
+        c.assume(z3.ForAll([q], z3.Implies(q >= 0, S(q + 1) == S(q) + leak(q))))                 # definition of the ghost prefix sum of the leaks
+        c.assume(z3.ForAll([q, q2], z3.Implies(z3.And(q >= 0, q < q2, q2 < n), PN(q) != PN(q2))))  # a path of a DAG visits no node twice
+        c.assume(z3.ForAll([q], z3.Implies(z3.And(q >= 0, q < n - 1), lbv(q) > 0)))               # requires (C06 speaks of flows): positive lower bounds on the path edges
+        st["idx_of"] = lambda x: st["L"]() if "L" in st else z3.IntVal(0)
+        path = SymSeq(n, lambda j: Sym(PN(lift(j))), SInt, "path")
+        st["first"] = True
+        try:
+            out = f(GS, "lo", "hi", [path], False)
+        except ValueError:
+            c.prove("xpost:ValueError-only-for-a-path-edge-with-negative-lower-bound,-lower>upper-or-upper=0", z3.Exists([q], z3.And(q >= 0, q < n - 1, z3.Not(edge_ok(q)))), prop=P, kind="xpost")
+            return
+        except IndexError:
+            c.prove("xpost:the-function-never-indexes-outside-the-path", False, prop=P, kind="xpost")       # reached only on a feasible path
+            return
+        c.prove("post:normal-return-only-if-every-path-edge-has-0<=lower<=upper,-upper!=0", z3.ForAll([q], z3.Implies(z3.And(q >= 0, q < n - 1), edge_ok(q))), prop=P)
+        ok = isinstance(out, list) and all(isinstance(x, SymSeq) for x in out)
+        c.prove("post:the-result-is-a-list-of-edge-lists", z3.BoolVal(ok), prop=P)
+        if ok:
+            rep = st.get("reported", [])
+            c.prove("post:one-edge-list-per-reported-path", z3.BoolVal(len(out) == len(rep)), prop=P)
+            for el, w in zip(out, rep):
+                j = z3.Int("pj")
+                c.prove("post:each-edge-list-is-the-consecutive-pairs-of-its-reported-window", z3.And(el.n == w.n - 1, z3.ForAll([j], z3.Implies(z3.And(j >= 0, j < el.n), z3.And(
+                    lift(el._at(j)[0]) == PN(w.lo + j), lift(el._at(j)[1]) == PN(w.lo + j + 1))))), prop=P)
+
+    def new_list():
+        # list displays in source order: safe_paths_list, then (per reported path) safe_path_edges, and safe_paths_list_edges
+        if st.get("concrete"):
+            return []
+        k = st.get("nlists", 0)
+        st["nlists"] = k + 1
+        if k == 0:
+            st["reported"] = Reported()
+            return st["reported"]
+        if st.get("want_edges"):
+            st["want_edges"] = False
+            return SymSeq(z3.IntVal(0), lambda j: (Sym(z3.IntVal(0)), Sym(z3.IntVal(0))), ESH, "safe_path_edges")
+        return []
+
+    def enter_conv(ns, it=None):
+        pass
+
+    def enter_main(ns, it=None):
+        pass
+
+    # the precondition under which C06 speaks about this function: exact positive flows (lower = upper > 0) - stated as: lower > 0 on path edges
+    def inv_outer_pre(ns, seq, done):
+        cl = inv_outer(ns, seq, done)
+        return cl
+
+    hv_seq = lambda old: SymSeq.fresh("safe_path_edges", ESH)
+    ident = lambda old: old          # the containers of reported paths keep their identity; what is put into them is checked at the moment it is put in
+
+    def some_reported(old):
+        """after any number of iterations the list holds reported windows; ONE arbitrary window stands for them in the conversion loops that follow
+        (what a window must satisfy was checked when it was put in; the conversion only needs lo < hi)"""
+        c = core.ctx()
+        lo, hi = c.fresh_const("reported_lo", INT), c.fresh_const("reported_hi", INT)
+        c.assume(z3.And(lo >= 0, lo < hi, hi <= st["n"] - 1))
+        w = SymSeq(hi - lo + 1, lambda q: Sym(PN(lo + lift(q))), SInt, "window")
+        w.lo, w.hi = lo, hi
+        del old[:]
+        list.append(old, w)
+        return old
+
+    def dq_havoc(old):
+        d = Deque()
+        c = core.ctx()
+        d.lo, d.hi = c.fresh_const("window_lo", INT), c.fresh_const("window_hi", INT)
+        return d
+
+    class DequeFactory:
+        def __call__(self):
+            if st.get("concrete"):
+                from collections import deque as real_deque
+                return real_deque()
+            return Deque()
+
+    loops = {1: dict(inv=inv_validate, prop=P, keep=("u", "v", "flow_attr")),
+             4: dict(inv=inv_outer, prop=P, havoc={"safe_path": dq_havoc, "safe_paths_list": some_reported, "safe_paths_set": ident}, keep=("rightdiff",)),
+             5: dict(inv=inv_inner, prop=P, havoc={"safe_path": dq_havoc, "safe_paths_list": ident, "safe_paths_set": ident}, keep=("rightdiff",)),
+             7: dict(inv=inv_edges, prop=P, havoc={"safe_path_edges": hv_seq}, on_entry=lambda ns, it=None: None)}
+    return Unit("flowpaths/utils/safetyflowdecomp.py", "compute_inexact_flow_decomp_safe_paths", h,
+                globs=dict(utils=UtilsStub, deque=DequeFactory(), sum=sum__, len=len__, zip=zip__, set=lambda: set()), loops=loops, props=[P], literals=dict(list=new_list), instances=instances,
+                assumptions=["A4f (not proved; Khan et al. / the papers cited in the source): a path of positive excess flow is contained in some path of every flow decomposition",
+                             "requires: both bound attributes are present on the path edges; the path visits no node twice (DAG); lower bounds on the path edges are positive (C06 speaks of flows; "
+                             "with a lower bound of 0 the function reports a single edge of excess 0 - an observation outside the property, see DESIGN 7.4)",
+                             "one decomposition path of arbitrary length per call (the outer loops over the list of paths run natively)"],
+                abstractions=["nodes are integers; the window `safe_path` is its pair of indices into the path; sums over out-edges are the function sum_of_upper_bounds_leaving (the summand is checked to be the upper bound)"])
+
+
 def all_units():
     # The DAG twin (AbstractPathModelDAG._apply_safety_optimizations_fix_zero_edges) is NOT registered: on the pinned tree it is unreachable
     # (`paths_to_fix` is only set by _apply_safety_optimizations, which no DAG model calls; the DAG models fix safe paths inside _encode_paths) and
@@ -490,4 +767,4 @@ def all_units():
     # safetypathcovers.get_endpoints_of_longest_safe_path_in is likewise called by nothing and is not under contract.
     return [u_process_edge(),
             u_fix_zero_edges("flowpaths/abstractwalkmodeldigraph.py", "AbstractWalkModelDiGraph._apply_safety_optimizations_fix_zero_edges", "walks_to_fix", False),
-            u_apply_safety_walk()]
+            u_apply_safety_walk(), u_flow_safe_paths()]
